@@ -8,6 +8,13 @@ PTQuick == << <<"Honest", "Honest", 0, 4>>, <<"Silent", "Silent", 0, 4>>, <<"Sta
               <<"WrongRound", "WrongRound", 1, 4>>, <<"ForeignId", "ForeignId", 1, 4>>,
               <<"CloseEarly", "Honest", 1, 4>>, <<"Silent", "Honest", 0, 4>> >>
 
+\* safety of the participant does not depend on transient failures: one type per behaviour
+PTKinds == << <<"Honest", "Honest", 0, 4>>, <<"Silent", "Silent", 0, 4>>, <<"Stall", "Stall", 1, 4>>,
+              <<"CloseEarly", "CloseEarly", 1, 4>>, <<"BadSig", "BadSig", 1, 4>>,
+              <<"WrongRound", "WrongRound", 1, 4>>, <<"ForeignId", "ForeignId", 1, 4>> >>
+PTLiveQuick == << <<"Honest", "Honest", 0, 4>>, <<"Silent", "Silent", 0, 4>>, <<"Stall", "Stall", 1, 4>>,
+                  <<"CloseEarly", "CloseEarly", 1, 4>>, <<"BadSig", "BadSig", 1, 4>>, <<"CloseEarly", "Honest", 1, 4>> >>
+
 \* both fault positions, an honest peer that is behind, every liar turning honest
 PTFull == PTQuick \o
           << <<"Stall", "Stall", 0, 4>>, <<"CloseEarly", "CloseEarly", 0, 4>>, <<"BadSig", "BadSig", 0, 4>>,
